@@ -80,7 +80,10 @@ ObsOK(obs, s) ==
 
 \* {"same": true}: the read-back is, key samples aside, byte-for-byte the previous one of this trace (accepted for st),
 \* so it is a presentation of out.st exactly when out.st = st
-StateOK(e, out) == IF "same" \in DOMAIN e.obs
+\* {"skip": true}: no read-back was taken after this request (requests on different tables issued concurrently, logged
+\* in the order of their replies): the state they produce is checked at the next event that carries a read-back
+StateOK(e, out) == IF "skip" \in DOMAIN e.obs THEN TRUE
+                   ELSE IF "same" \in DOMAIN e.obs
                    THEN /\ out.st = st
                         /\ \A i \in 1..Len(e.obs.samps) : SampleOK(e.obs.samps[i].samp, DOMAIN st.tables[e.obs.samps[i].t].rows)
                    ELSE ObsOK(e.obs, out.st)
@@ -102,7 +105,20 @@ Next ==
           \* in-flight request being wholly present or wholly absent
           LET cands == {st} \cup (IF e.hasInflight THEN {o.st : o \in Step(st, e.inflight)} ELSE {})
               good  == {s \in cands : e.started /\ ObsOK(e.obs, s)}
+              \* KNOWN FINDING Dev_FamilyDropTornByCrash: ModifyColumnFamilies purges the cells of a dropped family
+              \* from the stored rows before it persists the new schema; a kill in between recovers the old schema
+              \* with the rows already purged -- neither the state before nor the state after the request. The
+              \* deviation is exactly that: the in-flight request is an acceptable ModifyFamilies with a drop, the
+              \* schema is the old one, and the rows are the old rows without the dropped families' cells.
+              torn  == IF e.hasInflight /\ e.started /\ e.inflight.ev = "ModifyFamilies" /\ HasTbl(st, e.inflight.t)
+                          /\ DroppedIn(e.inflight.mods) # {} /\ (\E o \in Step(st, e.inflight) : o.resp.ok)
+                       THEN {[st EXCEPT !.tables[e.inflight.t].rows = PurgeRows(@, DroppedIn(e.inflight.mods))]}
+                       ELSE {}
+              tornGood == {s \in torn : ObsOK(e.obs, s)}
           IN IF good # {} THEN st' = (CHOOSE s \in good : TRUE) /\ UNCHANGED <<dead, nrej>>
+             ELSE IF tornGood # {}
+             THEN /\ Reject(e, "Dev_FamilyDropTornByCrash")
+                  /\ st' = (CHOOSE s \in tornGood : TRUE) /\ nrej' = nrej + 1 /\ UNCHANGED dead
              ELSE /\ Reject(e, IF e.started THEN "recovered state" ELSE "restart failed")
                   /\ dead' = TRUE /\ nrej' = nrej + 1 /\ UNCHANGED st
      ELSE LET outs == Step(st, e)
